@@ -136,7 +136,7 @@ HasBit(x, b) == (x \div b) % 2 = 1
 StoredFar(f, create, access, core) ==
   LET readFp == f.fp /\ (~create \/ HasBit(f.action, ActFORW)) IN
   [id |-> f.id, action |-> f.action,
-   dst |-> IF readFp THEN f.dst ELSE "none",
+   dst |-> IF readFp /\ f.dst # "" THEN f.dst ELSE "none",      \* "" and "none": no Destination Interface IE
    ohc |-> readFp /\ f.ohc,
    peer |-> IF readFp /\ f.ohc THEN f.peer ELSE Zero32,
    teid |-> IF readFp /\ f.ohc THEN f.teid ELSE Zero32,
@@ -176,7 +176,10 @@ ApplyUpdates(s, req, allocAddr, cfg, tbl) ==
       uf == FarsOf(req.ufar, FALSE, cfg.access, cfg.core)
       uq == QersOf(req.uqer)
   IN [s EXCEPT !.pdrs = Override(@, [k \in (DOMAIN up) \cap (DOMAIN @) |-> up[k]]),
-               !.fars = Override(@, [k \in (DOMAIN uf) \cap (DOMAIN @) |-> uf[k]]),
+               \* Update Forwarding Parameters carry the Destination Interface only when it changes: without it the FAR
+               \* keeps its interface and the source address of its tunnel (everything else is replaced, DESIGN A.1)
+               !.fars = Override(@, [k \in (DOMAIN uf) \cap (DOMAIN @) |->
+                                       IF uf[k].dst = "none" THEN [uf[k] EXCEPT !.dst = s.fars[k].dst, !.tsrc = s.fars[k].tsrc] ELSE uf[k]]),
                !.qers = Override(@, [k \in (DOMAIN uq) \cap (DOMAIN @) |-> uq[k]])]
 ApplyRemoves(s, req) ==
   [s EXCEPT !.pdrs = Without(@, SeqSet(req.rpdr)), !.fars = Without(@, SeqSet(req.rfar)), !.qers = Without(@, SeqSet(req.rqer))]
